@@ -23,7 +23,7 @@ LEVEL_TEXT = ("Random points of the quantified parameter box (N 1-60, theta_s (0
 LEVEL_NOTE = "Tolerances 1e-9*h on depth identities; N = 1 has no level pair: index validity is required only where the weight is non-zero. Trusts icontract (evaluation counts reported; zero => inconclusive)."
 RULE = ("case = chunk of random parameter points; every point calls s_stretch (rho,w), sdepth (rho,w) and z2s for ~40 depths per column; some chunks build a real "
         "ROMS.Grid from a generated file and from Vinfo. Non-trivial point: N >= 2 and stretched (theta_s > 0.5); distinct by rounded parameters.")
-MANDATORY = ["z2s_call_with_more_than_20000_particles", "grid_file_with_land_cells", "bathymetry_as_integer_array", "vinfo_theta_b_exactly_zero_vstretching_1", "vinfo_with_hc_zero_on_a_file_with_hc", "vinfo_with_another_hc_than_the_file", "z2s_result_kept_over_a_second_lookup", "grid_file_with_Tcline", "bathymetry_not_c_contiguous", "z2s_calls_over_many_cells", "post_s_stretch", "post_sdepth", "post_z2s", "vtransform1", "vtransform2", "vstretching1", "vstretching2", "vstretching4",
+MANDATORY = ["grid_from_vinfo_with_defaults", "z2s_call_with_more_than_20000_particles", "grid_file_with_land_cells", "bathymetry_as_integer_array", "vinfo_theta_b_exactly_zero_vstretching_1", "vinfo_with_hc_zero_on_a_file_with_hc", "vinfo_with_another_hc_than_the_file", "z2s_result_kept_over_a_second_lookup", "grid_file_with_Tcline", "bathymetry_not_c_contiguous", "z2s_calls_over_many_cells", "post_s_stretch", "post_sdepth", "post_z2s", "vtransform1", "vtransform2", "vstretching1", "vstretching2", "vstretching4",
              "depth_above_surface", "depth_below_bottom", "depth_on_level", "grid_from_file", "grid_from_vinfo", "N1", "vinfo_dictionary_reused", "grid_file_without_Vtransform", "grid_file_with_Vstretching"]
 ASSUMPTIONS = ["zeta = 0 (ladim ignores sea-surface elevation)", "Vtransform 1 only with hc <= min(h), as the property quantifies"]
 TIMEOUT = {"quick": 600, "thorough": 3000}
@@ -251,6 +251,9 @@ def run_case(case: dict[str, Any], wd: Path) -> dict[str, Any]:
         if case["idx"] % 8 == 5:
             p["Vstretching"], p["theta_b"] = 1, 0.0  # theta_b exactly 0 is inside Vstretching 1's range
             bump("vinfo_theta_b_exactly_zero_vstretching_1")
+        if case["idx"] % 8 == 1:
+            p["Vstretching"], p["Vtransform"] = 1, 1  # these cases also build a Grid from a Vinfo that leaves both out (documented defaults: 1 and 1)
+            p["theta_b"] = p["theta_b"] if p["theta_b"] <= 1.0 else p["theta_b"] / 4.0  # Vstretching 1 takes theta_b in [0, 1]
         if case["idx"] % 4 == 0:
             p["Vtransform"] = 1  # these cases write a file without the Vtransform variable
         hmin, hmax = 5.0, float(rng.choice([50.0, 800.0, 4000.0]))
@@ -281,9 +284,11 @@ def run_case(case: dict[str, Any], wd: Path) -> dict[str, Any]:
         vinfo2 = dict(vinfo, hc=0.0 if case["idx"] % 2 == 0 else 0.5 * hc, theta_s=0.7 * p["theta_s"] + 0.3)
         S2, C2 = W.stretching(p["N"], vinfo2["theta_s"], p["theta_b"], "rho", p["Vstretching"])
         zr2 = W.level_depths(w["G"]["h"], vinfo2["hc"], S2, C2, p["Vtransform"])
-        for label, kw, sub_ in (("grid_from_file", dict(), sub), ("grid_from_vinfo", dict(Vinfo=vinfo), sub),
+        for label, kw, sub_ in ((("grid_from_file", dict(), sub), ("grid_from_vinfo", dict(Vinfo=vinfo), sub),
                                 ("grid_from_vinfo_again", dict(Vinfo=vinfo), [2, 7, 1, 6] if sub is None else None),
-                                ("grid_from_vinfo_differing_from_the_file", dict(Vinfo=vinfo2), sub)):
+                                ("grid_from_vinfo_differing_from_the_file", dict(Vinfo=vinfo2), sub))
+                               + ((("grid_from_vinfo_with_defaults", dict(Vinfo={k_: v_ for k_, v_ in vinfo.items() if k_ not in ("Vstretching", "Vtransform")}), sub),)
+                                  if (p["Vstretching"] == 1 and p["Vtransform"] == 1) else ())):
             g = guarded(f"ROMS.Grid ({label})", p, R.Grid, filename=str(w["gridfile"]), subgrid=sub_, **kw)
             if g is None:
                 continue
